@@ -690,7 +690,26 @@ func registerJSONIntrinsics(e *Engine) {
 			return tuple{&blob{text: "null"}, iface{}}
 		}
 		j := i.toJSON(v.t, v.v, 0)
-		return tuple{&blob{t: j.t, raw: j.v}, iface{}}
+		b := &blob{t: j.t, raw: j.v}
+		// a size attached with verifrt.SetJSONSize to the source map travels with the blob
+		src := v.v
+		for {
+			if st, ok := src.(structure); ok && len(st) == 1 {
+				src = st[0]
+				continue
+			}
+			if p, ok := src.(*value); ok && p != nil {
+				src = *p
+				continue
+			}
+			break
+		}
+		if m, ok := src.(*gomap); ok && m != nil {
+			if sz, ok := i.jsonSizes[m]; ok {
+				b.size = sz
+			}
+		}
+		return tuple{b, iface{}}
 	}
 	unmarshal := func(fr *frame, args []value) (res value) {
 		i := fr.i
